@@ -15,21 +15,21 @@ import (
 
 // Inst: one function body being encoded (top-level or inlined).
 type Inst struct {
-	e       *Enc
-	fn      *ssa.Function
-	prefix  string
-	depth   int
-	vals    map[ssa.Value]Val
-	out     map[*ssa.BasicBlock]*State
-	in      map[*ssa.BasicBlock]*State
-	loops   []*Loop
-	loopOf  map[*ssa.BasicBlock]*Loop // header -> loop
-	con     *Contract
-	entry   *State // entry state (for old())
-	rets    []retPoint
-	parent  *Inst
-	callPos token.Pos
-	recvNonNil bool
+	e             *Enc
+	fn            *ssa.Function
+	prefix        string
+	depth         int
+	vals          map[ssa.Value]Val
+	out           map[*ssa.BasicBlock]*State
+	in            map[*ssa.BasicBlock]*State
+	loops         []*Loop
+	loopOf        map[*ssa.BasicBlock]*Loop // header -> loop
+	con           *Contract
+	entry         *State // entry state (for old())
+	rets          []retPoint
+	parent        *Inst
+	callPos       token.Pos
+	recvNonNil    bool
 	panicsAllowed bool
 }
 
@@ -491,6 +491,10 @@ func (in *Inst) instr(ins ssa.Instruction, st *State) {
 	case *ssa.FieldAddr:
 		base := in.val(x.X, st)
 		T := x.X.Type().Underlying().(*types.Pointer).Elem()
+		if base.K == KLocalObj {
+			in.vals[x] = e.localFieldAddr(base, T, x.Field)
+			break
+		}
 		in.nilCheck(base, x.X, x.Pos(), st)
 		in.vals[x] = e.fieldAddr(base.T, T, x.Field)
 	case *ssa.IndexAddr:
@@ -613,7 +617,18 @@ func (in *Inst) alloc(x *ssa.Alloc, st *State) Val {
 	e := in.e
 	t := x.Type().Underlying().(*types.Pointer).Elem()
 	switch t.Underlying().(type) {
-	case *types.Struct, *types.Array:
+	case *types.Struct:
+		if !x.Heap || true {
+			if !in.escapesObj(x, t) {
+				v := Val{K: KLocalObj, F: fmt.Sprintf("L:%s!%s", in.prefix, x.Name()), Ty: x.Type()}
+				in.zeroLocalObj(st, v, t)
+				return v
+			}
+		}
+		r := e.allocRef(st)
+		e.zeroInit(st, r, t)
+		return Val{K: KRef, T: r, Ty: x.Type()}
+	case *types.Array:
 		r := e.allocRef(st)
 		e.zeroInit(st, r, t)
 		return Val{K: KRef, T: r, Ty: x.Type()}
@@ -1155,6 +1170,10 @@ func (in *Inst) typeAssert(x *ssa.TypeAssert, st *State) {
 	var res Val
 	if kindOfType(x.AssertedType) == KRef {
 		res = Val{K: KRef, T: v.T, Ty: x.AssertedType}
+	} else if kindOfType(x.AssertedType) == KPtrField && v.K == KRef {
+		el := x.AssertedType.Underlying().(*types.Pointer).Elem()
+		e.regCell(el)
+		res = Val{K: KPtrField, T: v.T, F: cellComp(el), Ty: x.AssertedType}
 	} else {
 		res = e.freshVal(in.name(x)+".v", x.AssertedType, st)
 	}
@@ -1163,8 +1182,9 @@ func (in *Inst) typeAssert(x *ssa.TypeAssert, st *State) {
 		e.assume(st.reach, sImp(ok, sNot(sEq(v.T, "0"))))
 		zero := e.zeroVal(x.AssertedType)
 		var val Val
-		if res.K == KRef {
-			val = Val{K: KRef, T: sIte(ok, res.T, zero.T), Ty: x.AssertedType}
+		if res.K == KRef || res.K == KPtrField {
+			val = res
+			val.T = sIte(ok, res.T, zero.T)
 		} else {
 			val = res // arbitrary when !ok is an over-approximation of zero
 		}
@@ -1186,4 +1206,129 @@ func sortBlocks(bs map[*ssa.BasicBlock]bool) []*ssa.BasicBlock {
 	}
 	sort.Slice(xs, func(i, j int) bool { return xs[i].Index < xs[j].Index })
 	return xs
+}
+
+// ---------------------------------------------------------------------------
+// Non-escaping local struct objects
+// ---------------------------------------------------------------------------
+
+func (e *Enc) localFieldAddr(base Val, T types.Type, i int) Val {
+	st := T.Underlying().(*types.Struct)
+	f := st.Field(i)
+	name := base.F + "." + f.Name()
+	switch f.Type().Underlying().(type) {
+	case *types.Struct:
+		return Val{K: KLocalObj, F: name, Ty: types.NewPointer(f.Type())}
+	case *types.Array:
+		e.fail("array field of a local object")
+	}
+	e.regComp(name, sortOfType(f.Type()))
+	return Val{K: KPtrField, T: "0", F: name, Ty: types.NewPointer(f.Type())}
+}
+
+func (in *Inst) zeroLocalObj(st *State, v Val, t types.Type) {
+	e := in.e
+	stt := t.Underlying().(*types.Struct)
+	for i := 0; i < stt.NumFields(); i++ {
+		p := e.localFieldAddr(v, t, i)
+		if p.K == KLocalObj {
+			in.zeroLocalObj(st, p, stt.Field(i).Type())
+			continue
+		}
+		st.set(p.F, e.zeroVal(stt.Field(i).Type()).T)
+	}
+}
+
+// escapesObj: does the address of a local struct flow anywhere but field accesses, whole loads
+// and stores, and closures that are inlined (which again only do those)?
+func (in *Inst) escapesObj(x ssa.Value, t types.Type) bool {
+	if hasArrayField(t, 0) {
+		return true
+	}
+	return refsEscape(x, 0)
+}
+
+func hasArrayField(t types.Type, depth int) bool {
+	st, ok := t.Underlying().(*types.Struct)
+	if !ok || depth > 5 {
+		return false
+	}
+	for i := 0; i < st.NumFields(); i++ {
+		switch u := st.Field(i).Type().Underlying().(type) {
+		case *types.Array:
+			return true
+		case *types.Struct:
+			_ = u
+			if hasArrayField(st.Field(i).Type(), depth+1) {
+				return true
+			}
+		}
+	}
+	return false
+}
+
+func refsEscape(x ssa.Value, depth int) bool {
+	if depth > 6 || x.Referrers() == nil {
+		return true
+	}
+	for _, r := range *x.Referrers() {
+		switch u := r.(type) {
+		case *ssa.DebugRef:
+		case *ssa.UnOp:
+			if u.Op != token.MUL {
+				return true
+			}
+		case *ssa.Store:
+			if u.Val == x {
+				return true
+			}
+		case *ssa.FieldAddr:
+			switch u.Type().Underlying().(*types.Pointer).Elem().Underlying().(type) {
+			case *types.Struct:
+				if refsEscape(u, depth+1) {
+					return true
+				}
+			default:
+				for _, rr := range *u.Referrers() {
+					switch uu := rr.(type) {
+					case *ssa.DebugRef:
+					case *ssa.UnOp:
+						if uu.Op != token.MUL {
+							return true
+						}
+					case *ssa.Store:
+						if uu.Val == ssa.Value(u) {
+							return true
+						}
+					default:
+						return true
+					}
+				}
+			}
+		case *ssa.MakeClosure:
+			fnv := u.Fn.(*ssa.Function)
+			for i, b := range u.Bindings {
+				if b == x {
+					if refsEscape(fnv.FreeVars[i], depth+1) {
+						return true
+					}
+				}
+			}
+			for _, cr := range *u.Referrers() {
+				switch c := cr.(type) {
+				case *ssa.Defer:
+				case *ssa.Call:
+					if c.Call.Value != ssa.Value(u) {
+						return true
+					}
+				case *ssa.DebugRef:
+				default:
+					return true
+				}
+			}
+		default:
+			return true
+		}
+	}
+	return false
 }
